@@ -32,6 +32,10 @@ CHECKS.update({
    note="as C06; statistical independence of distinct threefry streams is assumed, not checked",
    technique="TLA+ spec (Seed.tla) checked by TLC (Distinct: injectivity of site -> (key term, lane)); replay with bit-revealing sites: pairwise distinct 64-bit draws and equality with the bits of the model's key terms",
    text="TLC: no two sites of one seeded run share (key term, lane) across statements, scan iterations, sample_shape / modular_vmap lanes, cond branches taken, nested calls, for every program of the grammar; replayed on real code where each site returns the 64 random bits it consumes: pairwise distinct within a run, and equal to bits(key term) predicted by the spec (informational)."),
+ "C14": dict(category="model_checking", design_ref="DESIGN.md §4 C14",
+   note="placement space bounded by depth (2 quick exhaustive, 3 thorough sampled); outcome classes decided by 2 calls with one key and 1 with another; two deviations are listed in known_findings.json by the pjax.py rule through which they occur (Lowering.tla: Family)",
+   technique="TLA+ spec (Lowering.tla: Contract outcome vs Impl of lowering/batching/jvp rules and the Seed interpreter) checked by TLC; every enumerated placement executed as real JAX code and classified",
+   text="TLC enumerates every stack of <= Depth contexts from {jit, scan, while, fori_static, fori_dynamic, cond, switch, grad, vmap, modular_vmap, remat, custom_jvp, seed} around one site (batched or not) and checks the rule model against the Contract outcome; each placement is built and run as real code: lowering error / other error / keyed value / fresh eager value / replicated lanes / fixed or hidden randomness must match the Contract."),
 })
 
 PENDING = {}
